@@ -1,9 +1,9 @@
 use nom::{
     bytes::complete::tag,
     character::complete::{char, one_of},
-    combinator::{map, map_res, opt, recognize},
+    combinator::{map, map_res, not, opt, peek, recognize},
     multi::many1,
-    sequence::{delimited, preceded},
+    sequence::{delimited, preceded, terminated},
     Parser,
 };
 
@@ -85,7 +85,8 @@ fn t_string(input: Input<'_>) -> ParserResult<'_, &str> {
                 }
             },
         ),
-        char('"'),
+        // a doubled quotation mark continues a cstring
+        terminated(char('"'), peek(not(char('"')))),
     )
     .parse(input)
 }
